@@ -61,13 +61,14 @@ theorem fwd_p1 : obs (run fwdApp (ctx0 64) 1 1 1000) 6 7 = (some .ret, 318, 317,
 theorem fwd_p2 : obs (run fwdApp (ctx0 64) 2 2 1000) 6 7 = (some .ret, 318, 317, 4, 2, 8#32, 10#32, m11) := by
   decide +kernel
 
-/-! ### M61-defect-1: an error inside the flush loop is swallowed — `Run` returns `0, nil`
+/-! ### M61-defect-1 (fixed in /repo): an error inside the flush loop
 
 `lw t0, 0(zero); div t1, t2, t0; beqz zero, l; nop; l:` with memory all zero: the `div` divides by the loaded 0.  The
 unpipelined machine (and MVP-6.1 with one or two units) returns the error `division by zero`.  With three units the `div`
 waits in its unit for the forwarded `t0` while the (independent, taken) branch behind it runs and asks for a flush; the
-flush path's loop "executing previous unit cycles" then cycles the busy units, the `div` gets its operand, fails — and
-`cpu.go` says `if resp.err != nil { return 0, nil }`: the run is reported successful, with a cycle count of 0. -/
+flush path's loop "executing previous unit cycles" then cycles the busy units, the `div` gets its operand and fails.
+`cpu.go` said `if resp.err != nil { return 0, nil }` there (the run was reported successful, with 0 cycles); since the
+fix it returns the error. -/
 
 def zeroApp : Model.Seq.App :=
   { instrs := [.lw_ { rd := 5, offset := 0#32, rs := 0 }, .div_ { rd := 6, rs1 := 7, rs2 := 5 },
@@ -83,9 +84,8 @@ theorem zero_seq : obsSeq (Model.Seq.runMvp1 zeroApp ⟨ctxZ 64, 0⟩ 10) 5 6 = 
 theorem zero_p2 : obs (run zeroApp (ctxZ 64) 2 2 1000) 5 6 = (some .err, 622, 622, 2, 1, 0#32, 0#32, m00) := by
   decide +kernel
 
-/-- three units: the run "falls off the end" (Go: `nil` error) with cycle count 0 after 623 ticks and three executed
-instructions -/
-theorem zero_p3 : obs (run zeroApp (ctxZ 64) 3 3 1000) 5 6 = (some .offEnd, 0, 623, 3, 1, 0#32, 0#32, m00) := by
+/-- three units: the error is reported too — after 623 ticks and three executed instructions, from inside the flush loop -/
+theorem zero_p3 : obs (run zeroApp (ctxZ 64) 3 3 1000) 5 6 = (some .err, 622, 623, 3, 1, 0#32, 0#32, m00) := by
   decide +kernel
 
 end Proofs.Mvp61Witness
